@@ -61,13 +61,34 @@ struct Variant
     char const* name;
     bool calo;
     TrackOrder order{TrackOrder::none};
+    bool checker{false};  // StatusChecker attached (a second begin-run action on the shared registry)
+    AlongStep along{AlongStep::linear_fluct};
 };
+
+// rec        recorder + diagnostics
+// calo       SimpleCalo + diagnostics, charge-partitioned initialisation
+// recsort    recorder, track re-indexing by particle type (sort_tracks)
+// recsortact recorder, re-indexing by along-step AND step-limit action (both SortTracksActions,
+//            count_tracks_per_action / action_thread_offsets)
+// recfield   recorder, uniform-field + Urban-MSC along-step with fluctuations (field driver,
+//            propagator, looping logic, UrbanMscParams consumers)
+// recchk     recorder + StatusChecker (debug status checking after every action)
+static std::vector<Variant> all_variants()
+{
+    return {{"rec", false, TrackOrder::none},
+            {"calo", true, TrackOrder::init_charge},
+            {"recsort", false, TrackOrder::reindex_particle_type},
+            {"recsortact", false, TrackOrder::reindex_both_action},
+            {"recfield", false, TrackOrder::none, false, AlongStep::field_msc_fluct},
+            {"recchk", false, TrackOrder::none, true}};
+}
 
 static std::unique_ptr<LoopProblem> make_problem(Variant const& v, unsigned streams, unsigned slots)
 {
     LoopConfig cfg;
     cfg.geometry = 1;
-    cfg.along = AlongStep::linear_fluct;
+    cfg.along = v.along;
+    cfg.status_checker = v.checker;
     cfg.slots = slots;
     cfg.max_streams = streams;
     cfg.max_events = 16;
